@@ -19,7 +19,7 @@ TECHNIQUE = ("SMT equivalence (z3 QF_BV) between the Amaranth netlist IR of the 
              "bit-vector / index-wise specification, complete per width; counterexamples replayed on amaranth.sim")
 BOUNDS = {
     "quick": "bit versions: widths 1..9, offsets 0..width inclusive, offset signal either just wide enough for `width` or for width-1, "
-             "placeholder symbolic and defaulted; vector versions: lengths 1..4 of 2-field struct views (1+2 bits), of nested struct "
+             "placeholder symbolic and defaulted, operand unsigned and signed; vector versions: lengths 1..4 of 2-field struct views (1+2 bits), of nested struct "
              "views and of plain 2-bit values, offsets 0..length inclusive, placeholder symbolic and defaulted",
     "thorough": "bit versions: widths 1..16 (plus an over-wide offset signal restricted to 0..width); vector versions: lengths 1..6, "
                 "three element kinds",
@@ -76,7 +76,11 @@ def run(cfg, ctx):
         b, u, o = comb({"x": w, "off": ow, "p": 1}, lambda m, s: {
             "sl": S.shift_left(s["x"], s["off"], s["p"]), "sr": S.shift_right(s["x"], s["off"], s["p"]),
             "sl0": S.shift_left(s["x"], s["off"]), "sr0": S.shift_right(s["x"], s["off"]),
-            "rl": S.rotate_left(s["x"], s["off"]), "rr": S.rotate_right(s["x"], s["off"])}, trace_functions=tf)
+            "rl": S.rotate_left(s["x"], s["off"]), "rr": S.rotate_right(s["x"], s["off"]),
+            # the same functions on a SIGNED operand (any ValueLike is accepted; the result is defined bit-wise)
+            "ssl": S.shift_left(s["x"].as_signed(), s["off"], s["p"]), "ssr": S.shift_right(s["x"].as_signed(), s["off"], s["p"]),
+            "ssl0": S.shift_left(s["x"].as_signed(), s["off"]), "ssr0": S.shift_right(s["x"].as_signed(), s["off"]),
+            "srl": S.rotate_left(s["x"].as_signed(), s["off"]), "srr": S.rotate_right(s["x"].as_signed(), s["off"])}, trace_functions=tf)
         ctx.functions = b.functions
         x, p = o.sig("x"), o.sig("p") == 1
         WW = max(w, ow)
@@ -100,9 +104,17 @@ def run(cfg, ctx):
             "rotate_left rotates modulo the width": o.sig("o.rl") == z3.RotateLeft(x, offw),
             "rotate_right rotates modulo the width": o.sig("o.rr") == z3.RotateRight(x, offw),
         }
+        goals.update({
+            "shift_left of a signed operand fills with the placeholder": o.sig("o.ssl") == (lo(xx << off) | fill_l),
+            "shift_right of a signed operand fills with the placeholder (not the sign)": o.sig("o.ssr") == (lo(z3.LShR(xx, off)) | fill_r),
+            "shift_left of a signed operand, default placeholder 0": o.sig("o.ssl0") == lo(xx << off),
+            "shift_right of a signed operand, default placeholder 0 (not the sign)": o.sig("o.ssr0") == lo(z3.LShR(xx, off)),
+            "rotate_left of a signed operand": o.sig("o.srl") == z3.RotateLeft(x, offw),
+            "rotate_right of a signed operand": o.sig("o.srr") == z3.RotateRight(x, offw),
+        })
         for n, g in goals.items():
             ctx.prove(f"{n}, {tag}", pre, g, u)
-        for n in ("o.sl", "o.sr", "o.sl0", "o.sr0", "o.rl", "o.rr"):
+        for n in ("o.sl", "o.sr", "o.sl0", "o.sr0", "o.rl", "o.rr", "o.ssl", "o.ssr", "o.ssl0", "o.ssr0", "o.srl", "o.srr"):
             if o.sig(n).size() != w:
                 ctx.violation(f"result width of {n} for width {w}", f"{o.sig(n).size()} != {w}", "elaboration")
         return
